@@ -53,6 +53,7 @@ type DB struct {
 	}
 
 	dirtyPageSet map[uint32]struct{}
+	journalTx    bool // true while a rollback journal transaction is in progress
 
 	wal struct {
 		offset           int64                     // offset of the start of the transaction
@@ -1147,13 +1148,16 @@ func (db *DB) WriteDatabaseAt(ctx context.Context, f *os.File, data []byte, offs
 		return fmt.Errorf("database write must be exactly one page (%d bytes)", db.pageSize)
 	}
 
-	// Track dirty pages for the rollback journal commit. With the write-ahead
-	// log (WAL) the dirty set is determined from the WAL at commit-time, but a
-	// database that is being switched out of WAL mode is rewritten through a
-	// rollback journal while it is still marked as WAL here, so always track.
-	// Pages copied by SQLite's checkpoint are dropped again in RemoveWAL().
+	// Track dirty pages if we are using a rollback journal. This isn't
+	// necessary with the write-ahead log (WAL) since pages are appended
+	// instead of overwritten. We can determine the dirty set at commit-time.
+	// A database that is being switched out of WAL mode is rewritten through
+	// a rollback journal while it is still marked as WAL here, so also track
+	// while a journal transaction is in progress.
 	pgno := uint32(offset/int64(db.pageSize)) + 1
-	db.dirtyPageSet[pgno] = struct{}{}
+	if db.Mode() == DBModeRollback || db.journalTx {
+		db.dirtyPageSet[pgno] = struct{}{}
+	}
 
 	// Perform write on handle.
 	if err := db.writeDatabasePage(f, pgno, data, false); err != nil {
@@ -1219,6 +1223,9 @@ func (db *DB) CreateJournal() (*os.File, error) {
 
 	f, err := db.os.OpenFile("CREATEJOURNAL", db.JournalPath(), os.O_RDWR|os.O_CREATE|os.O_EXCL|os.O_TRUNC, 0o666)
 	TraceLog.Printf("[CreateJournal(%s)]: %s", db.name, errorKeyValue(err))
+	if err == nil {
+		db.journalTx = true
+	}
 	return f, err
 }
 
@@ -1303,6 +1310,12 @@ func (db *DB) WriteJournalAt(ctx context.Context, f *os.File, data []byte, offse
 
 	dbJournalWriteCountMetricVec.WithLabelValues(db.name).Inc()
 
+	// A journal header at the start of the file begins a journal transaction
+	// (the journal file already exists in TRUNCATE and PERSIST mode).
+	if offset == 0 && len(data) >= SQLITE_JOURNAL_HEADER_SIZE && !isByteSliceZero(data[:SQLITE_JOURNAL_HEADER_SIZE]) {
+		db.journalTx = true
+	}
+
 	// Assume this is a PERSIST commit if the initial header bytes are cleared.
 	if offset == 0 && len(data) == SQLITE_JOURNAL_HEADER_SIZE && isByteSliceZero(data) {
 		if err := db.CommitJournal(ctx, JournalModePersist); err != nil {
@@ -1367,10 +1380,6 @@ func (db *DB) RemoveWAL(ctx context.Context) (err error) {
 	// Clear all per-page checksums for the WAL.
 	db.wal.frameOffsets = make(map[uint32]int64)
 	db.wal.chksums = make(map[uint32][]ltx.Checksum)
-
-	// Database writes up to this point came from checkpointing the WAL and
-	// are already part of committed transactions.
-	db.dirtyPageSet = make(map[uint32]struct{})
 
 	return nil
 }
@@ -2469,6 +2478,7 @@ func (db *DB) invalidateJournal(mode JournalMode) error {
 	}
 
 	db.dirtyPageSet = make(map[uint32]struct{})
+	db.journalTx = false
 
 	return nil
 }
